@@ -192,6 +192,8 @@ impl<'g> Analysis<'g> {
                         if let CharPart::Ident(n) = p {
                             match g.rule(n) {
                                 Some(Rule { def: RuleDef::Char { .. }, .. }) => {}
+                                // the built-in `char` may be an alternative of a @char rule
+                                None if n == "char" => {}
                                 _ => out.push(Problem::Undefined(format!("char rule {n}"))),
                             }
                         }
